@@ -28,7 +28,7 @@ BASE = dict(
         "density": RHO, "getNumberDensity": N, "getNumberDensities": N, "getNuclideNumberDensities": N, "_getNdensHelper": N, "getHMDens": N,
         "getAtomicWeight": AW, "getSymmetryFactor": ONE, "getVolumeFractions": (TOP, VF), "getMassFracs": ONE, "getMassFractions": ONE,
         "calculateMassDensity": RHO, "calculateNumberDensity": N, "getMassInGrams": G, "computeVolume": CM3, "getComponentVolume": CM3,
-        "_getCached": ZERO,  # a cached value has whatever unit was stored: neutral
+        "_getCached": ZERO, "normalizeNuclideList": ONE,  # a cached value has whatever unit was stored: neutral
         "getNuclides": TOP, "_getNuclidesFromSpecifier": TOP, "getChildrenWithNuclides": TOP, "getChildren": TOP, "isHeavyMetal": ONE,
     },
     consts={"units.MOLES_PER_CC_TO_ATOMS_PER_BARN_CM": MPC, "units.CM2_PER_BARN": U("cm^2 b^-1"), "units.AVOGADROS_NUMBER": U("atom mol^-1"), "TRACE_NUMBER_DENSITY": N,
